@@ -49,6 +49,13 @@ type CaseT struct {
 	Script  []RegT
 	Req     ReqT
 	Eng     EngineT
+	// Warm: r.Warmup() is called after the first WarmupAt registrations (still before the first
+	// request); the routes after it are registered immediately and every Where* re-registers them.
+	Warm     bool
+	WarmupAt int
+	// Prev: requests served on the same router instance before Req (the router is stateless per the
+	// property: every request of a session is judged on its own by the same oracle).
+	Prev []ReqT
 }
 
 var Methods = []string{"GET", "POST", "PUT", "PATCH", "DELETE", "HEAD", "OPTIONS"}
@@ -206,6 +213,9 @@ func Build(c CaseT, ask []string, obs *ObsT) *router.Router {
 		r.NoRoute(probe(-1, true))
 	}
 	for i, g := range c.Script {
+		if c.Warm && i == c.WarmupAt && c.Eng.Version == "" {
+			r.Warmup()
+		}
 		var rt *route.Route
 		h := probe(i, false)
 		if c.Eng.Version != "" {
@@ -271,29 +281,62 @@ func Build(c CaseT, ask []string, obs *ObsT) *router.Router {
 	return r
 }
 
-// Observe runs one request through ServeHTTP; a panic anywhere is an observation.
-func Observe(c CaseT, ask []string) (o ObsT) {
-	o.Ran = -1
+// Session is one real router serving several requests one after the other.
+type Session struct {
+	c   CaseT
+	ask []string
+	cur ObsT
+	r   *router.Router
+	bad bool // building the router panicked
+}
+
+// NewSession builds the router of the case (script, options, warm-up placement).
+func NewSession(c CaseT, ask []string) (s *Session) {
+	s = &Session{c: c, ask: ask}
+	defer func() {
+		if p := recover(); p != nil {
+			s.bad = true
+		}
+	}()
+	s.r = Build(c, ask, &s.cur)
+	return s
+}
+
+// Serve runs one request through ServeHTTP on the session's router; a panic is an observation.
+func (s *Session) Serve(q ReqT) (o ObsT) {
+	if s.bad {
+		return ObsT{Panic: true, Ran: -1}
+	}
+	s.cur = ObsT{Ran: -1}
 	defer func() {
 		if p := recover(); p != nil {
 			o = ObsT{Panic: true, Ran: -1}
 		}
 	}()
-	r := Build(c, ask, &o)
-	req := httptest.NewRequest(c.Req.Method, "/", nil)
-	req.URL.Path = c.Req.Path
+	req := httptest.NewRequest(q.Method, "/", nil)
+	req.URL.Path = q.Path
 	req.URL.RawPath = ""
-	if c.Eng.Version != "" {
-		req.Header.Set("X-API-Version", c.Eng.Version)
+	if s.c.Eng.Version != "" {
+		req.Header.Set("X-API-Version", s.c.Eng.Version)
 	}
 	rec := httptest.NewRecorder()
-	r.ServeHTTP(rec, req)
+	s.r.ServeHTTP(rec, req)
+	o = s.cur
 	o.Status = rec.Code
 	if a := rec.Header().Get("Allow"); a != "" {
 		o.Allow = strings.Split(a, ", ")
 	}
-	o.Exists = r.RouteExists(c.Req.Method, c.Req.Path)
+	o.Exists = s.r.RouteExists(q.Method, q.Path)
 	return o
+}
+
+// Observe builds a fresh router, serves the requests of c.Prev and then c.Req, and reports the last one.
+func Observe(c CaseT, ask []string) ObsT {
+	s := NewSession(c, ask)
+	for _, q := range c.Prev {
+		s.Serve(q)
+	}
+	return s.Serve(c.Req)
 }
 
 // InputTokens writes the input part of the case line (everything the Lean driver needs: script,
